@@ -152,9 +152,11 @@ prop('C14', COMMON +
      'child of each of the 65 location-carrying node constructions, one source obtained on every path before the child and '
      'one obtained on every path between the child and the construction - union takes min start / max end and tokens are '
      'consumed in source order. Clause "for a name the position covers exactly its characters": NAME-LOC-PAIR - every Id '
-     'node takes loc and name from the same token. Does not decide the lexer\'s line/column bookkeeping, that positions lie '
+     'node takes loc and name from the same token; RESULT-LOC-IS-NAME - name-carrying results of the cursor search report Id.loc; '
+     'CURSOR-LOC-FRESH - the parser cursor\'s last_location (moved over skipped comments by every peek) is read for a node '
+     'location only directly after a token was consumed. Does not decide the lexer\'s line/column bookkeeping, that positions lie '
      'inside the document, or that siblings do not overlap.',
-     [loc_enclose.run, loc_enclose.run_name_loc_pair, loc_enclose.run_result_loc],
+     [loc_enclose.run, loc_enclose.run_name_loc_pair, loc_enclose.run_result_loc, loc_enclose.run_cursor_loc_fresh],
      ['tokens are consumed in source order and the lexer assigns increasing positions (C05 LEX-BOUNDS side)'])
 
 prop('C17', COMMON +
